@@ -403,9 +403,11 @@ def check_nuclide_temperatures(ctx, col, elig, ws):
                                  for c in ("all3", "all2", "last_out", "first_out", "compound_mid_out",
                                            "compound_last_out") for p in PATTERNS
                                  for k in ("flux", "volume") for s in (False, True)] +
-                                [dict(case=c, pattern=p, kind=k, orders=ORDERS, someHold=h)
+                                [dict(case=c, pattern=p, kind=k, orders=ORDERS)
                                  for c in ("all3", "first_out") for p in ("typical", "shared")
-                                 for k in ("flux", "volume") for h in (None, "PU239")] +
+                                 for k in ("flux", "volume")] +
+                                [dict(case=c, pattern="sparse", kind=k, someHold="PU239")
+                                 for c in ("all3", "first_out", "compound_mid_out") for k in ("flux", "volume")] +
                                 [dict(case="last_out", pattern="sparse", kind="flux", orders=ORDERS[1:3],
                                       someHold="PU239")]})
 def component_average_is_weighted_mean(ctx, case, pattern, kind, symH=False, allZeros=False, orders=None,
@@ -477,7 +479,7 @@ KNOWN_DEFECT_burnup_counts_ineligible_members = False  # repaired in /repo (fix:
 #   col.extend(bs); col.createRepresentativeBlock()  ->  ZeroDivisionError at crossSectionGroupManager.py:262
 # Patch: /tmp/scratch/triage/KNOWN_DEFECT_burnup_divides_by_zero_volume.diff; the zero-height instances below are
 # switched on when the flag is False.
-KNOWN_DEFECT_burnup_divides_by_zero_volume = True
+KNOWN_DEFECT_burnup_divides_by_zero_volume = False  # repaired in /repo (fix: 0c4ac9e)
 _FLAT = [] if KNOWN_DEFECT_burnup_divides_by_zero_volume else [dict(case="all3", kind="flux", flat=1),
                                                                  dict(case="first_out", kind="volume", flat=2)]
 
@@ -530,7 +532,7 @@ def averaged_burnup_is_heavy_metal_weighted_mean(ctx, case, kind, fatFirst=False
 #   -> AttributeError: 'LumpedFissionProductCollection' object has no attribute 'setGasRemovedFrac'
 # Patch: /tmp/scratch/triage/KNOWN_DEFECT_median_block_with_lumped_fission_products_raises.diff; the instances whose
 # members carry lumped fission products are switched on when the flag is False.
-KNOWN_DEFECT_median_block_with_lumped_fission_products_raises = True
+KNOWN_DEFECT_median_block_with_lumped_fission_products_raises = False  # repaired in /repo (fix: 542c3ce)
 _LFP = [] if KNOWN_DEFECT_median_block_with_lumped_fission_products_raises else [dict(case="all2", wparam="flux", lfp=True)]
 
 
